@@ -242,7 +242,10 @@ func (x *Exec) havocCall(st *State, v *ssa.Call, key string, args []Value, cn ca
 		x.havocAll(st)
 	}
 	var facts []*Term
+	x.noObjSign = true
+	x.allocFloor = *st.nextObj
 	fr.env[v] = x.symbolic(v.Type(), "ret."+cn.name, &facts)
+	x.noObjSign = false
 	for _, f := range facts {
 		st.assume(f)
 	}
@@ -309,7 +312,10 @@ func (x *Exec) applyContract(st *State, ct *Contract, sig *types.Signature, name
 			}
 		}
 		for _, h := range ct.ModHeaps {
-			x.havocHeapKind(st, h)
+			x.havocHeapKind(st, h, false)
+		}
+		for _, h := range ct.ModFresh {
+			x.havocHeapKind(st, h, true)
 		}
 	}
 	// results
@@ -321,6 +327,9 @@ func (x *Exec) applyContract(st *State, ct *Contract, sig *types.Signature, name
 		freshSet[f] = true
 	}
 	rnames := resultNames(sig)
+	x.noObjSign = true
+	x.allocFloor = *st.nextObj
+	defer func() { x.noObjSign = false }()
 	for i := 0; i < res.Len(); i++ {
 		rv := x.symbolic(res.At(i).Type(), "ret."+cn.name+"."+rnames[i][0], &facts)
 		isFresh := false
@@ -733,14 +742,17 @@ func (x *Exec) dryRunLoop(st *State, loop *Loop, spec *LoopSpec, phis []*ssa.Phi
 	var written map[string]bool
 	for iter := 0; iter < 6; iter++ {
 		s2 := st.fork()
-		rec := &recorder{targets: map[string]map[*Term]bool{}, whole: map[string]bool{}, phiBad: bad, nonpos: map[string]map[*Term]bool{}}
+		rec := &recorder{targets: map[string]map[*Term]bool{}, whole: map[string]bool{}, phiBad: bad, nonpos: map[string]map[*Term]bool{}, freshWhole: map[string]bool{}}
 		s2.rec = nil
 		mark := x.b.nextID
 		// pessimistic havoc of everything known, fresh epoch for heaps touched later
 		f2 := s2.frameTop()
 		for _, p := range phis {
 			var facts []*Term
+			x.noObjSign = true
+			x.allocFloor = -(1 << 60)
 			nv := x.symbolic(p.Type(), "dry."+p.Name(), &facts)
+			x.noObjSign = false
 			if !bad[p] {
 				nv = keepObj(f2.env[p], nv)
 			}
@@ -791,6 +803,9 @@ func (x *Exec) dryRunLoop(st *State, loop *Loop, spec *LoopSpec, phis []*ssa.Phi
 			for h := range rec.targets {
 				written[h] = true
 			}
+			for h := range rec.freshWhole {
+				written[h] = true
+			}
 			for h := range rec.whole {
 				written[h] = true
 			}
@@ -817,6 +832,9 @@ func (x *Exec) dryRunLoop(st *State, loop *Loop, spec *LoopSpec, phis []*ssa.Phi
 					out.targets[h][o] = true
 				}
 			}
+		}
+		for h := range rec.freshWhole {
+			out.whole[h] = true // havocked as a whole, but only in memory allocated by this activation
 		}
 		for h := range out.whole {
 			if !hardWhole[h] {
@@ -963,7 +981,7 @@ func (x *Exec) userAsserts(st *State, fr *Frame, cn callName, after bool) {
 
 // havocHeapKind makes a whole component heap (and the heaps derived from it, "H_sl" = all four
 // slice-header heaps) unconstrained.
-func (x *Exec) havocHeapKind(st *State, h string) {
+func (x *Exec) havocHeapKind(st *State, h string, freshOnly bool) {
 	var names []string
 	for n := range x.heapSorts {
 		if n == h || strings.HasPrefix(n, h+"#") {
@@ -984,7 +1002,22 @@ func (x *Exec) havocHeapKind(st *State, h string) {
 	}
 	sort.Strings(names)
 	for _, n := range names {
-		st.setHeap(n, x.b.Fresh(n+"@asm", x.heapSorts[n]), nil)
+		cur := st.heap(x, n, x.heapSorts[n])
+		nh := x.b.Fresh(n+"@asm", x.heapSorts[n])
+		if freshOnly {
+			// only memory allocated during this activation (ids <= 0) may have changed
+			r := x.b.Var("r!af", SInt)
+			es := arrElem(x.heapSorts[n])
+			st.assumeDef(x, x.b.Forall([]*Term{r}, x.b.Implies(x.b.Lt(x.b.Int(0), r),
+				x.b.Eq(x.b.mk("select", es, "", nil, nh, r), x.b.mk("select", es, "", nil, cur, r)))))
+			st.heaps[n] = nh
+			st.dirty[n] = true
+			if st.rec != nil {
+				st.rec.freshWhole[n] = true
+			}
+			continue
+		}
+		st.setHeap(n, nh, nil)
 	}
 }
 
